@@ -26,6 +26,21 @@ def fatal_map(v, txt, where):
         v.fail("runtime-fatal:concurrent-map", {"what": m.group(0), "where": where, "stack": txt[i:i + 2500]})
     return bool(m)
 
+def library_panic(v, txt, where):
+    """A panic raised inside the library (first frame of the panicking goroutine that is not the runtime's lies in the package's own
+    sources, not in a driver file zz_verif_*) while it is used concurrently is the violation itself; a panic of the driver is not."""
+    m = re.search(r"^panic: [^\n]*", txt, re.M)
+    if not m:
+        return False
+    tail = txt[m.start():]
+    frames = re.findall(r"^\t(/\S+\.go):\d+", tail, re.M)
+    own = [f for f in frames if "/runtime/" not in f and "/testing/" not in f and "/src/sync/" not in f]
+    if own and "zz_verif" not in own[0] and own[0].startswith(os.path.realpath(vlib.REPO)):
+        v.fail("runtime-panic:" + os.path.basename(own[0]), {"what": m.group(0), "where": where, "stack": tail[:2500]})
+        return True
+    return False
+
+
 def run():
     t0 = time.time(); v = vlib.Verdict(PID); acc = Acc(); th = vlib.TIER == "thorough"
     r = tlc_require_ok(tlc("V1Classifier", "V1ClassifierFixed.cfg", timeout=900), "V1ClassifierFixed")
@@ -48,10 +63,12 @@ def run():
             if n:
                 m = re.search(r"WARNING: DATA RACE\n(.*?)\n\n", txt, re.S)
                 v.fail("race-detector", {"reports": n, "first": (m.group(1) if m else txt)[:2500]})
-            elif rc != 0:
+            elif rc != 0 and not fatal_map(v, txt, "stringclassifier (race build)") and not library_panic(v, txt, "stringclassifier (race build)"):
                 raise vlib.Inconclusive("driver under -race failed:\n" + txt[-3000:])
             continue
         if fatal_map(v, txt, "stringclassifier"):
+            continue
+        if library_panic(v, txt, "stringclassifier"):
             continue
         if rc != 0:
             raise vlib.Inconclusive("concurrent driver failed:\n" + txt[-3000:])
